@@ -538,8 +538,15 @@ def _siblings(prog: Program, run: Run) -> None:
         f = prog.func(f"{cls}._encode_positioned_into_pdu")
         adv = [x for x in walk_no_nested(f.node) if isinstance(x, ast.AugAssign) and
                "cursor_byte_position" in ast.unparse(x.target)]
-        if adv and normalize(adv[0].value, sub_env(nexpr, {"encode_state.cursor_bit_position",
-                                                           "bit_pos"})).same(wantb):
+        # the amount may be held in a local (whatever it is called) computed just before
+        from .common import resolve_locals as _rl
+        amt = adv[0].value if adv else None
+        if isinstance(amt, ast.Name):
+            amt = _rl(f.node, amt, depth=1)
+        if adv and (normalize(adv[0].value, sub_env(nexpr, {"encode_state.cursor_bit_position",
+                                                            "bit_pos"})).same(wantb) or
+                    normalize(amt, sub_env(nexpr, {"encode_state.cursor_bit_position",
+                                                   "bit_pos"})).same(wantb)):
             run.ok(R, f.qual, "the skipped bytes equal what the decoder consumes",
                    f"{f.module.rel}:{adv[0].lineno}")
         else:
